@@ -3,6 +3,7 @@ package spine
 import (
 	"encoding/json"
 	"errors"
+	"fmt"
 	"reflect"
 	"sync"
 
@@ -150,7 +151,17 @@ func (r *DeviceRemote) FeatureByEntityTypeAndRole(entity api.EntityRemoteInterfa
 	return nil
 }
 
-func (d *DeviceRemote) HandleSpineMesssage(message []byte) (*model.MsgCounterType, error) {
+func (d *DeviceRemote) HandleSpineMesssage(message []byte) (msgCounter *model.MsgCounterType, err error) {
+	// the content of the message is not validated and required elements
+	// are used without checking them in many places, so an incomplete or
+	// inconsistent message from a remote device may not take the service down
+	defer func() {
+		if r := recover(); r != nil {
+			msgCounter = nil
+			err = fmt.Errorf("invalid spine message: %v", r)
+		}
+	}()
+
 	datagram := model.Datagram{}
 	if err := json.Unmarshal([]byte(message), &datagram); err != nil {
 		return nil, err
@@ -160,8 +171,7 @@ func (d *DeviceRemote) HandleSpineMesssage(message []byte) (*model.MsgCounterTyp
 		d.sender.ProcessResponseForMsgCounterReference(datagram.Datagram.Header.MsgCounterReference)
 	}
 
-	err := d.localDevice.ProcessCmd(datagram.Datagram, d)
-	if err != nil {
+	if err := d.localDevice.ProcessCmd(datagram.Datagram, d); err != nil {
 		logging.Log().Trace(err)
 	}
 
